@@ -214,3 +214,41 @@ Proof. vm_compute. reflexivity. Qed.
 (* n = 0: 0 - 1 smears to all ones, + 1 = 0 (the callers never pass 0 elements: set_size guards) *)
 Lemma round_up_pow2_zero : c_ares_round_up_pow2 0 1 = Ok 0 /\ c_ares_round_up_pow2 0 0 = Ok 0.
 Proof. split; vm_compute; reflexivity. Qed.
+
+(* ---- ares_log2: de Bruijn multiplication and a constant table, generated from the source ----
+   The callers pass powers of two only (ares_slist_calc_level: ares_log2(ares_round_up_pow2(cnt + 1))).
+   The domain - the 64 powers of two of a 64-bit word - is finite: decided by evaluation over ALL
+   of it and lifted to the quantified statement. *)
+From CAres.Dsa Require Import SList.
+
+Lemma log2_generated_all :
+  forallb (fun k => match c_ares_log2 (2 ^ Z.of_nat k) 1 with Ok v => v =? Z.of_nat k | _ => false end) (seq 0 64) = true.
+Proof. vm_compute. reflexivity. Qed.
+
+Theorem log2_generated_pow2 k : 0 <= k < 64 -> c_ares_log2 (2 ^ k) 1 = Ok k.
+Proof.
+  intros Hk. pose proof log2_generated_all as H. rewrite forallb_forall in H.
+  specialize (H (Z.to_nat k)). rewrite Z2Nat.id in H by lia.
+  assert (Hin : In (Z.to_nat k) (seq 0 64)) by (apply in_seq; lia).
+  specialize (H Hin). destruct (c_ares_log2 (2 ^ k) 1) as [v | s | u]; try discriminate.
+  apply Z.eqb_eq in H. subst v. reflexivity.
+Qed.
+
+(* the two call inputs of the generated ares_slist_max_level, as Dsa_gen_agree.v instantiates them,
+   are what the generated callees return *)
+Theorem slist_level_calls_agree_generated (k : nat) :
+  (0 < k)%nat -> Z.of_nat k <= 2 ^ 62 ->
+  c_ares_round_up_pow2 (Z.of_nat k) 1 = Ok (Z.of_nat (sl_round_up_pow2 k)) /\
+  c_ares_log2 (Z.of_nat (sl_round_up_pow2 k)) 1 = Ok (Z.of_nat (sl_log2 (sl_round_up_pow2 k))).
+Proof.
+  intros Hk Hb. split; [exact (round_up_pow2_agrees_generated k Hk Hb) |].
+  unfold sl_log2, sl_round_up_pow2. rewrite Nat.log2_pow2 by apply Nat.le_0_l.
+  rewrite Nat2Z.inj_pow. change (Z.of_nat 2) with 2. apply log2_generated_pow2.
+  rewrite log2_up_nat_Z by exact Hk. split; [apply Z.log2_up_nonneg |].
+  destruct (Nat.eq_dec k 1) as [-> | K1]; [cbn; lia |].
+  assert (Z.log2_up (Z.of_nat k) <= 62) by (apply Z.log2_up_le_pow2; lia). lia.
+Qed.
+
+(* not a logarithm off the powers of two (and never used there) *)
+Lemma log2_generated_not_pow2_witness : c_ares_log2 3 1 = Ok 47 /\ c_ares_log2 0 1 = Ok 63.
+Proof. split; vm_compute; reflexivity. Qed.
